@@ -40,6 +40,7 @@ type Result struct {
 	Exhaustive  bool                `json:"exhaustive"`
 	Counters    map[string]int64    `json:"counters"` // summed across shards
 	Maxima      map[string]int64    `json:"maxima"`   // max across shards
+	Minima      map[string]int64    `json:"minima"`   // min across shards and explorer runs
 	Sets        map[string][]string `json:"sets"`     // union across shards (e.g. distinct outcomes)
 	Notes       []string            `json:"notes"`
 	CasesDone   int64               `json:"cases_done"` // journal counter at last flush
